@@ -176,7 +176,9 @@ def evaluate_side(mod, name, tau, fn=None, oracle=None, whole=0):
             out = ev._call_fn(fn, args, {})
     except RaiseReached as r:
         exc = r.node.exc
-        out = ("raises", core.unparse(exc.func if isinstance(exc, ast.Call) else exc) if exc is not None else "re-raise")
+        from xfabsa.symeval import raised_name
+        nm_ = getattr(r, "resolved", None) or (core.unparse(exc.func if isinstance(exc, ast.Call) else exc) if exc is not None else "re-raise")
+        out = ("raises", nm_.split(".")[-1] if nm_ else nm_)
     return out, calls
 
 
@@ -280,21 +282,28 @@ WHOLE_WORK = 8_000_000         # monomial products allowed to one deeper compari
 
 
 OPAQUE_LEFT = [False]        # did the last deeper comparison still meet a callee it kept opaque?
+PRIMS = {}                   # canonical key of a compared difference -> the difference (the sign oracles share their keys)
 
 
 def _semantic_compare(ctx, name, tmod, lmod, lfn=None, whole=0):
     tau = N.tau_of(True)
     OPAQUE_LEFT[0] = False
-    paths = enumerate_signs(lambda o: (evaluate_side(tmod, name, tau, oracle=o, whole=whole),
-                                       evaluate_side(lmod, name, Rat.const(1), fn=lfn, oracle=o, whole=whole)),
+    def both(o):
+        try:
+            return (evaluate_side(tmod, name, tau, oracle=o, whole=whole),
+                    evaluate_side(lmod, name, Rat.const(1), fn=lfn, oracle=o, whole=whole))
+        finally:
+            PRIMS.update(o.prims)
+    paths = enumerate_signs(both,
                             max_paths=243 if not whole else 6561, fixed=CELL_DOMAIN())
     if len(paths) == 1:
         (tout, tcalls), (lout, lcalls) = paths[0][1]
-        return compare_outcomes(name, tau, tout, tcalls, lout, lcalls)
+        return compare_outcomes(name, tau, tout, tcalls, lout, lcalls, [])
     # the pair branches on its input: one comparison per sign case of the compared quantities (trace partitioning)
     bad = []
     for assume, ((tout, tcalls), (lout, lcalls)) in paths:
-        for suffix, ok, msg in compare_outcomes(name, tau, tout, tcalls, lout, lcalls):
+        cons = [(PRIMS[k_], v_) for k_, v_ in assume.items() if k_ in PRIMS]
+        for suffix, ok, msg in compare_outcomes(name, tau, tout, tcalls, lout, lcalls, cons):
             if not ok:
                 def show(k, v):
                     if k.startswith("band:"):
@@ -318,7 +327,7 @@ def is_raise(v):
     return isinstance(v, tuple) and len(v) == 2 and v[0] == "raises"
 
 
-def compare_outcomes(name, tau, tout, tcalls, lout, lcalls):
+def compare_outcomes(name, tau, tout, tcalls, lout, lcalls, constraints=None):
     res = []
     if is_raise(tout) or is_raise(lout):
         if is_raise(tout) and is_raise(lout) and tout[1] == lout[1]:
@@ -353,6 +362,11 @@ def compare_outcomes(name, tau, tout, tcalls, lout, lcalls):
     for i, (x, y) in enumerate(zip(tf, lf)):
         w = ws[i] if ws is not None else 0
         if not x.equals(y * (tau ** w)):
+            if w == 0 and constraints is not None:
+                # one angle through two inverse functions (arctan2(s, c) here, arcsin - arctan2 with its wraps there)
+                from xfabsa import angles
+                if angles.same_angle(x, y, constraints):
+                    continue
             nbad += 1
             if nbad <= 3:
                 res.append(("result[%d]" % i, False, "tools %s ; laue %s ; expected ratio tau^%d"
